@@ -120,10 +120,23 @@ Accepts(out, old, new, radius, header) ==
   ELSE \E L0 \in {SplitLines(out)}, O \in {SplitLines(old)}, nw \in {new} :
           AcceptsLines(L0, O, nw, radius, header)
 
+(* Attribution of known finding KF-2 (hunk header extents taken from the    *)
+(* first and last op of the hunk, i.e. from stale carried indices after a  *)
+(* compaction swap): a rendering that is rejected as shipped belongs to    *)
+(* the finding only if it is byte for byte what that mechanism produces    *)
+(* from the recorded ops (`Udiff!Render`, the implementation-shaped model  *)
+(* of src/udiff.rs).  Anything else rejected is "not_kf2" - a different    *)
+(* defect, even where a swap happened.  Never a verdict by itself.         *)
+UD == INSTANCE Udiff
+Kf2Shape(r) ==
+  r.ops = <<>> \/ r.out_w = UD!Render(SplitLines(r.old), SplitLines(r.new), r.ops, r.radius, r.header)
+
 UdiffViol(r) ==
   IF r.panic THEN {"panic"}
   ELSE (IF r.hint
-        THEN (IF Accepts(r.out_w, r.old, r.new, r.radius, r.header) THEN {} ELSE {"patch"})
+        THEN LET acc == Accepts(r.out_w, r.old, r.new, r.radius, r.header) IN
+             (IF acc THEN {} ELSE {"patch"})
+             \cup (IF ~acc /\ ~Kf2Shape(r) THEN {"not_kf2"} ELSE {})
              \cup (IF r.rep_panic \/ ~Accepts(r.out_w_rep, r.old, r.new, r.radius, r.header) THEN {"patch_rep"} ELSE {})
         ELSE {})
        \* the byte writer and Display: identical for UTF-8 input, Display = lossy decoding otherwise
